@@ -430,7 +430,12 @@ func codecObjects(c *core.Case, ch *chain, blk *types.Block, parts *types.PartSe
 
 	// proposal: proto
 	guard("proposal proto round trip", func() {
-		prop := types.NewProposal(h, uint32(r.Intn(4)), uint32(r.Intn(3)), types.BlockID{Hash: blk.Hash(), PartsHeader: parts.Header()})
+		// as the product makes them: the POL round is below the round (0/0 in the first round)
+		round, pol := uint32(r.Intn(4)), uint32(0)
+		if round > 0 {
+			pol = uint32(r.Intn(int(round)))
+		}
+		prop := types.NewProposal(h, round, pol, types.BlockID{Hash: blk.Hash(), PartsHeader: parts.Header()})
 		prop.Timestamp = blk.Time().Add(time.Duration(r.Intn(1e9)))
 		pp := prop.ToProto()
 		proposer := blk.ProposerAddress()
